@@ -84,9 +84,9 @@ theorem COk.default (cfg : Cfg) (closed : Bool) : COk cfg closed {} := by
 
 /-! ### per-client lemmas: every way the server rewrites a record keeps its shape -/
 
-theorem answer_ok (cfg : Cfg) (cl : Bool) (c : Cli) (seq : Nat) (r : ReqKind) (n : Nat) (h : COk cfg cl c) :
-    COk cfg cl (answer c seq r n).1 := by
-  cases r <;> simpa [answer, COk, Shape, Free, Served, Gone] using h
+theorem answer_ok (cfg : Cfg) (cl : Bool) (c : Cli) (seq : Nat) (r : ReqKind) (n : Nat) (hr : r ≠ .arm)
+    (h : COk cfg cl c) : COk cfg cl (answer c seq r n).1 := by
+  cases r <;> first | exact absurd rfl hr | simpa [answer, COk, Shape, Free, Served, Gone] using h
 
 theorem answer_phase (c : Cli) (seq : Nat) (r : ReqKind) (n : Nat) : (answer c seq r n).1.phase = c.phase := by
   cases r <;> simp [answer]
@@ -276,12 +276,12 @@ theorem GOk.upd_free {s : St} (h : GOk s) (hk : s.cfg.kind ≠ .oneshot) (k : Na
 
 /-- a request handled on an idle connection leaves it idle -/
 theorem req_ok (cfg : Cfg) (cl : Bool) (c : Cli) (l : List Item) (m seq n : Nat) (r : ReqKind) (p : Bool)
-    (h : COk cfg cl c) (hp : c.phase = .idle) (hpol : p = c.polled) :
+    (hr : r ≠ .arm) (h : COk cfg cl c) (hp : c.phase = .idle) (hpol : p = c.polled) :
     COk cfg cl { (answer { c with inbox := l, nextSeq := m, phase := .queued, polled := false } seq r n).1 with
                  inbox := [], phase := .idle, polled := p } := by
   rcases c with ⟨cred, phase, inbox, inst, connOpen, connHooks, discHooks, srvFd, shut, child, table, replies, nextSeq,
     clientOpen, partSent, tracked, inFd, polled⟩
-  cases r <;> simp_all (config := {decide := true}) [COk, Shape, Free, Served, Gone, answer]
+  cases r <;> first | exact absurd rfl hr | simp_all (config := {decide := true}) [COk, Shape, Free, Served, Gone, answer]
 
 
 theorem COk.phases {cfg : Cfg} {cl : Bool} {c : Cli} (h : COk cfg cl c) :
@@ -340,7 +340,8 @@ theorem GOk.agree_free {s s' : St} (h : GOk s) (hk : s.cfg.kind ≠ .oneshot) (k
   (h.upd_free hk k (s'.cli k) hc).congr a.cfg a.closedFlag a.listening a.active a.acceptAlive a.acceptBusy a.queue
     a.blocked a.poolUp a.cli_eq a.accepted
 
-theorem GOk.send_req {s : St} (h : GOk s) (k m seq : Nat) (r : ReqKind) (hk : (s.cli k).phase ≠ .absent) :
+theorem GOk.send_req {s : St} (h : GOk s) (k m seq : Nat) (r : ReqKind) (hr : r ≠ .arm)
+    (hk : (s.cli k).phase ≠ .absent) :
     GOk (send (s.set k { s.cli k with nextSeq := m }) k [.req seq r]) := by
   have hc := h.cli k
   rcases hc.phases with hp | hp | hp | hp
@@ -375,7 +376,7 @@ theorem GOk.send_req {s : St} (h : GOk s) (k m seq : Nat) (r : ReqKind) (hk : (s
         intro j hj; simp [set_cli_ne _ _ _ _ hj]
       · obtain ⟨hq1, hq2, -⟩ := hc
         obtain ⟨h1, h2, h3, h4, h5, h6, h7, h8, h9, h10, h11, h12, h13⟩ := hs
-        cases r <;>
+        cases r <;> first | exact absurd rfl hr |
           simp [send, wake, hp, hpool, poolWake, hup, hq, drain, freeWorkers, hfw, hb, poolServeOne, poolPlace, poolConsume, answer,
             poolFrames, COk, Shape, Served, *]
       · simp [send, wake, hsh, hp, hpool, hin, poolWake, hup, hq, drain, freeWorkers, hfw, hb, poolServeOne, poolPlace, poolConsume,
@@ -388,9 +389,9 @@ theorem GOk.send_req {s : St} (h : GOk s) (k m seq : Nat) (r : ReqKind) (hk : (s
         intro j hj; simp [set_cli_ne _ _ _ _ hj]
       · obtain ⟨hq1, hq2, -⟩ := hc
         obtain ⟨h1, h2, h3, h4, h5, h6, h7, h8, h9, h10, h11, h12, h13⟩ := hs
-        cases r <;>
-          simp [send, wake, hp, hpool, runDedicated, applyConsumed, consume, answer, dedFrames, COk, Shape, Served, *] <;>
-          exact h13
+        cases r <;> first | exact absurd rfl hr |
+          (simp [send, wake, hp, hpool, runDedicated, applyConsumed, consume, answer, dedFrames, COk, Shape, Served, *] <;>
+           exact h13)
       · simp [send, wake, hsh, hp, hpool, hin, runDedicated, applyConsumed, consume, answer_phase, dedFrames]
       · simp [send, wake, hsh, hp, hpool, hin, runDedicated, applyConsumed, consume, answer_phase, answer_inst, dedFrames]
   · -- finished: nothing arrives
@@ -518,14 +519,15 @@ theorem GOk.send_end {s : St} (h : GOk s) (k : Nat) (it : Item) (hit : it = .bye
       have hb := h.b
       have hfw : s.cfg.nb ≠ 0 := by have := h.nb hpool; omega
       have hone : s.cfg.kind ≠ .oneshot := by simp [hpool]
+      have hsl : (s.cli k).slowHook = false := hc.1.2
       refine h.agree_free hone k ?_ ?_
       · constructor <;> rcases hit with rfl | rfl <;>
           simp [send, wake, hsh, hp, hpool, hin, poolWake, hup, hq, drain, freeWorkers, hfw, hb, poolServeOne, poolPlace,
-            poolConsume, poolFrames, endServe, release] <;>
+            poolConsume, poolFrames, endServe, release, closeConn, hsl] <;>
           (intro j hj; simp [set_cli_ne _ _ _ _ hj])
       · rcases hit with rfl | rfl <;>
           simpa (config := {decide := true}) [send, wake, hsh, hp, hpool, hin, poolWake, hup, hq, drain, freeWorkers, hfw,
-            hb, poolServeOne, poolPlace, poolConsume, poolFrames, endServe, release, closeConn, hco, htr, hfd, hpo]
+            hb, poolServeOne, poolPlace, poolConsume, poolFrames, endServe, release, closeConn, hco, htr, hfd, hpo, hsl]
             using hg [] .queued
     · by_cases hone : s.cfg.kind = .oneshot
       · have hcl' : s.closedFlag = false := by
@@ -743,7 +745,7 @@ def Op.c17 : Op → Bool
   | .creds _ _ => false
   | .connectReuse _ _ => false
   | .releaseHook _ => false
-  | .call _ _ => true
+  | .call _ r => r != .arm
   | .raw _ _ => false
   | .gracefulClose _ => true
   | .abruptClose _ => true
@@ -846,7 +848,7 @@ theorem GOk.step {s s' : St} {o : Obs} (h : GOk s) (op : Op) (hop : op.c17 = tru
     unfold Srv.step at hs
     by_cases hu : usable s k = true
     · simp only [hu, Bool.not_true, Bool.false_eq_true, if_false, Except.ok.injEq, Prod.mk.injEq] at hs
-      rw [← hs.1]; exact h.send_req k _ _ r (usable_phase hu)
+      rw [← hs.1]; exact h.send_req k _ _ r (by simpa [Op.c17] using hop) (usable_phase hu)
     · simp [hu] at hs
   | gracefulClose k =>
     unfold Srv.step at hs
